@@ -10,17 +10,25 @@
       C12_merge_exponential_before_fix_witness / C12_merge_family_after_fix_witness — defect 15;
       C12_cost_walk_exponential_refuted — the cost walk is NOT polynomial (known finding, defect 16).
 
-    Not proved (checked on every run by the oracle of Cplx/ComplexitySpec.v only): the bounds
-    [cycle_steps_bound] for the fragment cycle search (Cplx/FragmentWalkCount.v, cycle_search_run)
-    and [var_steps_bound] for the variable walk (var_walk_run); full statements:
-      forall D, match cycle_search_run D with Some w => w_steps w <= cycle_steps_bound D | None => False end
-      forall D, match var_walk_run D with Some k => k <= var_steps_bound D | None => False end
-    (intended statements, NOT proved), and a polynomial bound for the cost walk on documents whose
-    fragment definitions contain no spreads (the complement of the known finding). *)
-From Coq Require Import List ZArith Bool.
+      C12_cycle_steps_le_bound, C12_var_steps_le_bound — the fragment cycle search of
+        validateFragmentSpreads and the fragment closure of validateVariables are polynomial on
+        every document whose spread lists are those of a syntax tree ([spreads_ok], evaluated by the
+        check on every case).
+    From bytes (composition with C07's scanner model): C12_parse_from_bytes_linear.
+
+      C12_merge_family_exponential_before_fix — defect 15 for every n (at least 6^(n-1)/3 and 2^n calls).
+      C12_cost_run_expansions — the cost walk expands exactly one definition per spread path;
+      C12_cost_run_linear_when_bodies_flat — hence linearly many when no fragment body spreads.
+
+    Not proved (oracle of Cplx/ComplexitySpec.v only): the STEP count of the cost walk (the theorems
+    count expansions); the work of the scanner and of the validator rules that do not follow
+    fragments (tied two-sidedly to bytes resp. AST nodes by the block counters, factor 4 resp. 2). *)
+From Coq Require Import List NArith ZArith Bool.
 From ApiFu Require Import Cplx.Tables Cplx.ParserDepthModel Cplx.MergeCountModel Cplx.CostWalkCount
      Cplx.ComplexityDecode Cplx.ComplexitySpec Cplx.ParserDepthProofs Cplx.CostWalkProofs Cplx.MergeFamily
-     Cplx.MergeCountProofs.
+     Cplx.MergeCountProofs Cplx.FragmentWalkCount Cplx.SpreadLists Cplx.FragmentWalkProofs
+     Cplx.MergeLowerBound Cplx.CostWalkPaths.
+From ApiFu Require Base.Sexp Lex.LexModel Cplx.TokenClass Cplx.ParseFromBytes.
 Import ListNotations.
 Open Scope Z_scope.
 
@@ -87,6 +95,81 @@ Proof. exact merge_steps_poly. Qed.
 Theorem C12_merge_steps_bound_poly : forall D : doc, merge_steps_bound D <= 150 * (doc_size D + 1) ^ 6.
 Proof. exact merge_steps_bound_poly. Qed.
 
+(** The two other passes that follow fragment spreads.  Hypothesis [spreads_ok D]: the spread lists
+    of the definitions are together not longer than the number of spreads in the document (true of
+    every syntax tree, where a selection set belongs to one definition; evaluated by the check on
+    every case) and the node counts are not negative.
+    validateFragmentSpreads, cycle search: for every fragment name a breadth-first search through
+    the direct dependencies; at most n_frags * (2 n_spreads + 3) loop iterations, never out of fuel. *)
+Theorem C12_cycle_steps_le_bound : forall D : doc, spreads_ok D = true ->
+  match cycle_search_run D with
+  | Some w => w_steps w <= cycle_steps_bound D
+  | None => False
+  end.
+Proof. exact cycle_steps_le_bound. Qed.
+
+(** validateVariables: per operation, the operation and every fragment reachable from it, each
+    once; at most op_nodes_sum + n_ops * (frag_nodes + n_spreads + n_frags + 1) inspected nodes. *)
+Theorem C12_var_steps_le_bound : forall D : doc, spreads_ok D = true ->
+  match var_walk_run D with
+  | Some k => k <= var_steps_bound D
+  | None => False
+  end.
+Proof. exact var_steps_le_bound. Qed.
+
+(** From the bytes of the request: on ANY byte string the scanner (C07's model) delivers at most
+    one token per byte, the parser enters at most 8 |bytes| + 6 productions on them, and the depth
+    error needs nesting. *)
+Theorem C12_parse_from_bytes_linear : forall bs : Base.Sexp.bytes,
+  exists ts es,
+    Lex.LexModel.lex false bs = Lex.LexModel.Done ts es
+    /\ (length ts <= length bs)%nat
+    /\ match parse go_cfg (map TokenClass.tok_class ts) with
+       | Ok s' | Err _ s' => steps s' <= 8 * Z.of_nat (length bs) + 6
+       | OutOfFuel => False
+       end
+    /\ (forall s', parse go_cfg (map TokenClass.tok_class ts) = Err DepthErr s' ->
+                   1000 < 6 + 4 * maxnest (map TokenClass.tok_class ts)).
+Proof. exact ParseFromBytes.parse_from_bytes_linear. Qed.
+
+(** Defect 15 for every n >= 1: on  {...F0} fragment Fi on T{a{...F(i+1)} a{...F(i+1)}} (i < n)
+    fragment Fn on T{i}  ([mfam n], size 13 n + 11) the pass of the pinned tree (nothing remembered)
+    never runs out of fuel and calls validateSameResponseShape at least 2^n and at least 6^(n-1)/3
+    times. *)
+Theorem C12_merge_family_exponential_before_fix : forall n : nat, (1 <= n)%nat ->
+  doc_size (mfam n) = 13 * Z.of_nat n + 11 /\
+  match merge_run false (mfam n) with
+  | MOk st | MErr st => 2 ^ Z.of_nat n <= n_shape st /\ 6 ^ Z.of_nat (n - 1) <= 3 * n_shape st
+  | MOutOfFuel => False
+  end.
+Proof. exact merge_family_exponential_before_fix. Qed.
+
+(** The growth function of the cost walk, for every document on which the walk ends without error:
+    the number of fragment definitions it expands IS the number of spread paths starting in the
+    operation ([paths]: a spread reached through fields and inline fragments counts once, plus once
+    for every path starting in the body of the fragment it names). *)
+Theorem C12_cost_run_expansions : forall (D : doc) (st : cst),
+  cost_run D = COk st ->
+  c_expansions st =
+  match d_ops D with
+  | [op] => paths (arr_of_list (d_fields D)) (arr_of_list (d_sets D)) (frag_table D) (cost_fuel D) (op_root op)
+  | _ => 0
+  end.
+Proof. exact cost_run_expansions. Qed.
+
+(** ... so a document whose fragment bodies contain no spread is walked with at most one expansion per
+    spread occurrence below the operation: the complement of the known finding is linear. *)
+Theorem C12_cost_run_linear_when_bodies_flat : forall (D : doc) (st : cst),
+  (forall nm fd fuel, aget (frag_table D) nm = Some fd ->
+                      occurrences (arr_of_list (d_fields D)) (arr_of_list (d_sets D)) fuel (fr_root fd) = 0) ->
+  cost_run D = COk st ->
+  c_expansions st <=
+  match d_ops D with
+  | [op] => occurrences (arr_of_list (d_fields D)) (arr_of_list (d_sets D)) (cost_fuel D) (op_root op)
+  | _ => 0
+  end.
+Proof. exact cost_run_linear_when_bodies_flat. Qed.
+
 (** Defect 16, known (key cost-walk-reexpansion): the property's clause "cost calculation
     included" is REFUTED for the cost walk.  For every n the document
       {...F0} fragment F0 on T{...F1 ...F1} ... fragment F(n-1) on T{...Fn ...Fn} fragment Fn on T{i}
@@ -126,6 +209,12 @@ Print Assumptions C12_recursion_unbalanced_before_fix.
 Print Assumptions C12_flat_document_refused_before_fix.
 Print Assumptions C12_merge_steps_poly.
 Print Assumptions C12_merge_steps_bound_poly.
+Print Assumptions C12_cycle_steps_le_bound.
+Print Assumptions C12_var_steps_le_bound.
+Print Assumptions C12_parse_from_bytes_linear.
+Print Assumptions C12_merge_family_exponential_before_fix.
+Print Assumptions C12_cost_run_expansions.
+Print Assumptions C12_cost_run_linear_when_bodies_flat.
 Print Assumptions C12_cost_walk_exponential_refuted.
 Print Assumptions C12_merge_exponential_before_fix_witness.
 Print Assumptions C12_merge_family_after_fix_witness.
